@@ -365,6 +365,22 @@ void ConstrainedFDLayout::run(const bool xAxis, const bool yAxis)
     }
     FILE_LOG(logDEBUG) << "ConstrainedFDLayout::run done.";
 
+    // The reported unsatisfiable constraints may refer to the extra
+    // constraints, which are about to be freed, so clear those references.
+    for (size_t dim = 0; dim < unsatisfiable.size(); ++dim)
+    {
+        for (UnsatisfiableConstraintInfos::iterator info =
+                unsatisfiable[dim]->begin();
+                info != unsatisfiable[dim]->end(); ++info)
+        {
+            if (find(extraConstraints.begin(), extraConstraints.end(),
+                        (*info)->cc) != extraConstraints.end())
+            {
+                (*info)->cc = nullptr;
+            }
+        }
+    }
+
     // Clear extra constraints.
     for_each(extraConstraints.begin(), extraConstraints.end(), delete_object());
     extraConstraints.clear();
